@@ -209,7 +209,7 @@ def run(tier: str) -> int:
     rep.coverage = dict(
         obligations=tot["obligations"],
         discharged=tot["unsat"] + tot["sat"],
-        checker_cmd="z3 (python API 4.x wheel in /verif/.venv) on QF_BVFP+UF obligations generated by vf/e2.py from utils.py of the current tree",
+        checker_cmd="z3 5.1.0 (python wheel in /verif/.venv) on QF_BVFP+UF obligations generated by vf/e2.py from utils.py of the current tree",
         trusted_base=["z3", "vf/e2core.py proxies (Python float/int semantics)", "IC10 instruction semantics of vf/e2.py:oracle", "concrete replay on the real table"],
         set_a=dict(operators=[op for _, op in jobs], typings=["float,float", "int,int", "int,float", "float,int"], **tot),
         samples=samples[:4] + [dict(propagation=items[0]["const_src"], twin=items[0]["var_src"], binds=items[0]["binds"])],
